@@ -53,4 +53,6 @@ DigestDef(msg) == LET hs == Blocks(H0, Pad(msg), 1) IN
    [i \in 1..32 |-> LET wd == hs[(i-1) \div 4 + 1] k == (i-1) % 4 IN
         IF k = 0 THEN wd[1] \div 256 ELSE IF k = 1 THEN wd[1] % 256 ELSE IF k = 2 THEN wd[2] \div 256 ELSE wd[2] % 256]
 Digest(msg) == DigestDef(msg)
+\* FALSE by definition; the override class returns TRUE, so SelfTest can tell that the overrides are in force
+OverridesLoaded == FALSE
 ====
